@@ -94,6 +94,38 @@ def shape_for(n):
     return [rows, cols]
 
 
+def pixel_indices(case):
+    """large frames are tiled from a small palette of voltages (`case["vs"]`): palette index of every pixel, row-major"""
+    rows, cols = case["shape"]
+    t = case["tile"]
+    n = len(case["vs"])
+    idx = [(i * t["stride"] + t["offset"]) % n for i in range(rows * cols)]
+    idx[-1] = t["last"]  # the very last pixel always holds a voltage at/above the range maximum
+    idx[-cols] = t["last"]  # … and so does the first pixel of the last row
+    idx[cols - 1] = t["last"]  # … and the last pixel of the first row
+    return idx
+
+
+def voltage_bits(case):
+    """bit patterns of the voltages of every pixel of the frame, row-major"""
+    if "tile" in case:
+        return [case["vs"][i] for i in pixel_indices(case)]
+    return case["vs"]
+
+
+def mk_tiled(rng, kind, bits, vmin, vmax, palette, rows, cols, **extra):
+    top = INF if kind != "simple" else vmax
+    palette = [top] + [v for v in palette if not math.isnan(v)]
+    n = len(palette)
+    stride = rng.choice([s for s in (1, 3, 5, 7, 11, 13) if math.gcd(s, n) == 1] or [1])
+    c = {"kind": kind, "bits": bits, "vmin": float_bits(vmin), "vmax": float_bits(vmax),
+         "vs": [float_bits(v) for v in palette], "shape": [rows, cols],
+         "tile": {"stride": stride, "offset": rng.randrange(n), "last": 0},
+         "_readable": {"vmin": repr(vmin), "vmax": repr(vmax)}}
+    c.update(extra)
+    return c
+
+
 def mk_case(kind, bits, vmin, vmax, vs, **extra):
     rows, cols = shape_for(len(vs))
     pad = rows * cols - len(vs)
@@ -151,7 +183,7 @@ def convert_on(det, case):
     kind = case["kind"]
     vmin, vmax = bits_float(case["vmin"]), bits_float(case["vmax"])
     rows, cols = case["shape"]
-    frame = np.array([bits_float(b) for b in case["vs"]], dtype=np.float64).reshape(rows, cols)
+    frame = np.array([bits_float(b) for b in voltage_bits(case)], dtype=np.float64).reshape(rows, cols)
     if kind == "simple32":
         frame = frame.astype(np.float32)
     try:
@@ -261,7 +293,7 @@ def property_predicate(case, impl):
     bits = case["bits"]
     n_full = 2**bits - 1
     vmin, vmax = bits_float(case["vmin"]), bits_float(case["vmax"])
-    vs = [bits_float(b) for b in case["vs"]]
+    vs = [bits_float(b) for b in voltage_bits(case)]
     codes = impl["codes"]
     if len(codes) != len(vs) or impl["shape"] != case["shape"]:
         return [("shape", f"image shape {impl['shape']} differs from the signal frame's {case['shape']}", [])]
@@ -305,7 +337,9 @@ def reduce_case(case, idx):
     if not idx:
         return None
     c = dict(case)
-    c["vs"] = [case["vs"][i] for i in idx]
+    full = voltage_bits(case)
+    c["vs"] = [full[i] for i in idx]
+    c.pop("tile", None)
     c["shape"] = [1, len(idx)]
     return c
 
@@ -460,6 +494,32 @@ def body(ck: common.Check):
                 t = transition(vmin, vmax, n_full, k)
                 vs += [ulps(t, -1), t, ulps(t, 1)]
             cases.append(mk_case("simple", bits, vmin, vmax, vs, data_type=None, w=None, exhaustive=True))
+    # tall and wide frames (block-wise / chunked conversions must cover every row and column): tiled from a small palette
+    dims = [1023, 1024, 1025, 1100, 2049, 2500]
+    combos = []
+    for d in dims:
+        for kind in ("simple", "sar", "sar_noise"):
+            for tall in (True, False):
+                combos.append((d, kind, tall))
+    if quick:  # every dimension × every converter tall, plus simple_adc wide
+        combos = [cb for cb in combos if cb[2] or cb[1] == "simple"]
+    for d, kind, tall in combos:
+        small = rng.choice([1, 2, 3, 4])
+        rows, cols = (d, small) if tall else (small, d)
+        bits = rng.choice([4, 8, 12, 16, 24, 32, 53, 54, 64])
+        vmin, vmax = gen_range(rng)
+        while not (vmin < vmax) or math.isinf(vmax - vmin):
+            vmin, vmax = gen_range(rng)
+        extra = {"w": None}
+        if kind == "simple":
+            extra["data_type"] = None
+            pal = gen_voltages_simple(rng, bits, vmin, vmax, 31)
+        else:
+            vmin, vmax = 0.0, abs(vmax) if vmax != 0 else 1.0
+            pal = gen_voltages_sar(rng, bits, vmax, 31)
+            if kind == "sar_noise":
+                extra["strengths"] = [float_bits(0.0)] * bits
+        cases.append(mk_tiled(rng, kind, bits, vmin, vmax, pal, rows, cols, **extra))
     # conversion histories on one detector object (the model is functional: every conversion is a function of the
     # signal frame and the settings only, whatever the image bucket held before)
     for _ in range(60 if quick else 600):
@@ -533,10 +593,21 @@ def body(ck: common.Check):
         if q != f:
             raise common.InfraError(f"Lean models disagree with each other (ℚ/rn53 vs Float) on {json.dumps(case)[:400]}")
         which = None
+        if "tile" in case:  # the model answered for the palette: one code per pixel through the tiling
+            idx = pixel_indices(case)
+            f = [f[i] for i in idx]
+            if "f_asis" in ans:
+                ans = dict(ans, f_asis=[ans["f_asis"][i] for i in idx])
+            ck.count(f"large-frame={case['shape'][0]}x{case['shape'][1]}")
         if "codes" in impl and impl["codes"] != f:
             asis = ans.get("f_asis")
             which = "implementation equals the pinned tree's algorithm (…AsIs model)" if asis == impl["codes"] else "implementation matches neither model"
-            ck.disagreement(stream, case, impl["codes"], f, key=None)
+            first = next((i for i, (a, b) in enumerate(zip(impl["codes"], f)) if a != b), None)
+            if "tile" in case:
+                ck.disagreement(stream, case, {"first_differing_pixel": first, "impl_code": impl["codes"][first] if first is not None else None},
+                                {"model_code": f[first] if first is not None else None}, key=None)
+            else:
+                ck.disagreement(stream, case, impl["codes"], f, key=None)
             ck.count("disagree")
         elif "error" in impl:
             ck.disagreement(stream, case, impl, f)
@@ -548,6 +619,8 @@ def body(ck: common.Check):
                "data_type; SAR: transition multiples of vmax/2^bits ±2 ulp; noisy SAR with zero strengths/noise (statement) and "
                "with non-zero strengths, zero noise (correspondence only); float32 frames (statement only); all transitions "
                "±1 ulp exhaustively for ≤ %d bits; get_dtype on 0..70; rn53 vs CPython correctly-rounded division; "
+               "tall and wide frames (1023, 1024, 1025, 1100, 2049, 2500 rows or columns × 1–4, tiled from a 32-voltage palette, "
+               "range maximum in the last row/column) for all three converters, every pixel judged; "
                "HISTORIES of 2–4 conversions on one detector object mixing simple_adc / sar_adc / sar_adc_with_noise(0), with "
                "adc_bit_resolution / adc_voltage_range / data_type changed through the public setters between them (widening "
                "and narrowing across the 8/16/32/64-bit type boundaries), image bucket emptied or not in between, every "
